@@ -383,3 +383,56 @@ def restored_in_finally(qualname, target_expr, saved_name):
         after = [s for s in body[idx_change + 2:] if any(is_target(t) for s2 in ast.walk(s) if isinstance(s2, ast.Assign) for t in s2.targets)]
         out.append(_ob(qualname, "not-changed-again-after-restore:%s" % target_expr, not after, nxt.lineno, "no further assignment after the try/finally"))
     return out
+
+
+# ------------------------------------------------------------------------------------------------ frame: receiver is read-only
+def receiver_not_mutated(qualname, mutators=("sample", "update_outcomes", "insert", "remove", "append", "pop", "clear", "update")):
+    """frame clause `modifies` excludes everything reachable from self: no store to an attribute or element of self (or of an
+    object taken from a collection of self), and no call of a mutating method on such an object.  Fresh copies
+    (sc.dcp(self), self.copy(), copy.deepcopy) and what is reached from them may be changed freely."""
+    fi = source.lookup(qualname)
+    out = []
+    tainted = {"self"}  # names that denote self or something reached from self without a copy
+    fresh = set()
+
+    def rooted(node):
+        """does the expression denote an object reached from a tainted name (attribute / subscript / .values() / .items())?"""
+        while True:
+            if isinstance(node, ast.Name):
+                return node.id in tainted
+            if isinstance(node, ast.Attribute):
+                node = node.value
+            elif isinstance(node, ast.Subscript):
+                node = node.value
+            elif isinstance(node, ast.Call) and isinstance(node.func, ast.Attribute) and node.func.attr in ("values", "items", "keys"):
+                node = node.func.value
+            else:
+                return False
+
+    def is_copy(node):
+        return isinstance(node, ast.Call) and ((isinstance(node.func, ast.Attribute) and node.func.attr in ("dcp", "copy", "deepcopy")) or (isinstance(node.func, ast.Name) and node.func.id in ("dcp", "deepcopy")))
+
+    n = 0
+    for s in ast.walk(fi.node):
+        if isinstance(s, ast.Assign) and len(s.targets) == 1 and isinstance(s.targets[0], ast.Name):
+            if is_copy(s.value):
+                fresh.add(s.targets[0].id)
+                tainted.discard(s.targets[0].id)
+            elif rooted(s.value) and not isinstance(s.value, ast.Call):
+                tainted.add(s.targets[0].id)
+        elif isinstance(s, (ast.For,)):
+            if rooted(s.iter):
+                for x in ast.walk(s.target):
+                    if isinstance(x, ast.Name):
+                        tainted.add(x.id)
+    for s in ast.walk(fi.node):
+        if isinstance(s, (ast.Assign, ast.AugAssign)):
+            targets = s.targets if isinstance(s, ast.Assign) else [s.target]
+            for t in targets:
+                if isinstance(t, (ast.Attribute, ast.Subscript)) and rooted(t):
+                    n += 1
+                    out.append(_ob(qualname, "receiver-read-only@L%d" % s.lineno, False, s.lineno, "`%s` stores into an object reached from self" % ast.unparse(s)[:90]))
+        elif isinstance(s, ast.Call) and isinstance(s.func, ast.Attribute) and s.func.attr in mutators and rooted(s.func.value):
+            out.append(_ob(qualname, "receiver-read-only@L%d" % s.lineno, False, s.lineno, "`%s` calls a mutating method on an object reached from self (not from the fresh copy)" % ast.unparse(s)[:90]))
+    out.append(_ob(qualname, "receiver-read-only:frame", True, None, "stores and mutating calls checked; fresh copies: %s" % sorted(fresh)))
+    return out
